@@ -33,9 +33,9 @@ CLAIMED = {
     "C09": C("proptest token soup + mutated valid programs; libFuzzer target parse_bytes in the thorough tier; totality + span-validity oracle",
              "Any text parses to Ok or Err without panic; every error span lies in the source on char boundaries and renders with miette.",
              "Inputs bounded in nesting depth (native stack exhaustion is outside the statement); a hang is reported as inconclusive (exit 2)."),
-    "C10": C("proptest chaos profile + libFuzzer target run_structured (thorough); no-panic oracle + reference-interpreter hazard oracle over the crate's own draw log",
-             "Accepted tests with every hazard source (division by zero, unassigned variables, empty random ranges, signExt, boundary arithmetic, widths to 64, shared columns, Z/X answers, driver errors) never panic; hazards surface as error items.",
-             "Programs that do not terminate by construction are not generated."),
+    "C10": C("proptest chaos profile + libFuzzer target run_structured (thorough); no-panic oracle + planted unconditionally executed hazards that must surface as an error item",
+             "Accepted tests with every hazard source (division by zero, unassigned variables, empty random ranges, signExt, boundary arithmetic, widths to 64, shared columns, Z/X answers, driver errors) never panic; in half of the cases a top-level statement that cannot be evaluated whatever the values are is planted, and a run that reaches the end of iteration must contain an error item.",
+             "Programs that do not terminate by construction are not generated; a run-away next() (step fuel) is a discard here and a violation in C01."),
     "C11": C("proptest: fitted signal list + 0-2 list edits vs independent static-analysis oracle (iff), accepted tests iterated",
              "with_signals verdict compared with the four clauses of the statement evaluated on the model by an independent scope analysis; accepted tests are iterated to the end with an honest driver."),
     "C12": C("proptest: valid generated program + one of 19 grammar-breaking edit kinds, each with and without final newline; must-reject oracle",
@@ -52,8 +52,8 @@ CLAIMED = {
     "C17": C("proptest: generated random/resetRandom programs; the crate's hook event log replayed by the reference interpreter",
              "Range, one-draw-per-evaluation, laziness, reset replay and literal-equivalence decided from the crate's own draw log (feature verif-hooks) replayed through the reference interpreter.",
              "Needs the add-only verif-hooks feature; the original draw expression stays what executes."),
-    "C18": C("proptest: vars() after every row vs reference interpreter environment",
-             "vars() compared with the reference environment at the evaluation of each row's source statement, incl. shadowing, ended loops, expansion items and virtual-signal evaluation in between."),
+    "C18": C("proptest: tagged rows with probe inputs; vars() vs an independent static scope analysis and vs the crate's own evaluation of (v) (self-consistency, no reference values)",
+             "After every yielded row: every variable definitely in scope at that source row is reported, nothing that cannot be in scope there is reported (ended loops, device outputs, virtual signals), and each probed variable has exactly the value the crate itself evaluated `(v)` to in that row (innermost binding wins); also after error items caused by virtual signals."),
     "C19": C("proptest: generated layouts with tagged rows; printer's line table as oracle (no control-flow semantics)",
              "Every yielded row (dynamic and static) carries a tag in a dedicated input column; row.line must equal the line the printer put that row on, for LF/CRLF, leading blank lines, comment/blank lines, missing final newline."),
     "C20": C("proptest metamorphic: one token sequence printed in two layouts",
@@ -101,7 +101,7 @@ def main():
         "version": 1,
         "setup_cmd": "cd /verif/harness && CARGO_NET_OFFLINE=true cargo build --release --offline && (cd /verif/harness && CARGO_NET_OFFLINE=true cargo +nightly fuzz build 2>&1 | tail -3 || true)",
         "hooks": {
-            "guard": "cargo feature verif-hooks (off by default)",
+            "guard": "cargo feature verif-hooks (off by default): draw log + seed override (C17, C15), step fuel for the statement iterator (run-away next() becomes a catchable result)",
             "enable": "the harness depends on digital_test_runner by path (/repo) with features = [\"verif-hooks\"]",
             "baseline_off_cmd": "cd /repo && cargo test --workspace --no-fail-fast --offline",
             "source_commits": hook_commits(),
